@@ -20,7 +20,7 @@ Does not decide: the tag state machine over all placements (string parsing at ru
 import ast
 
 from ..flow import Facts, callee_text
-from ..model import AnalysisError, norm, walk_function
+from ..model import expand_text, AnalysisError, norm, walk_function
 from ..report import Result
 from ..ruletable import UNKNOWN
 from ..selftest import Variant
@@ -201,10 +201,32 @@ def _stamp(r, p, cg):
 
 def _match(r, p):
     has = p.function("vsg.parser:item.has_code_tag")
+    # the disjuncts under which has_code_tag answers True: `if T: return True` steps and a final `return A or B`
     rets_true = []
-    for n in walk_function(has.node):
-        if isinstance(n, ast.If):
-            rets_true.append(norm(n.test))
+    shape_ok = True
+
+    def disj(e):
+        if isinstance(e, ast.BoolOp) and isinstance(e.op, ast.Or):
+            for v in e.values:
+                disj(v)
+        elif isinstance(e, ast.Constant) and e.value is False:
+            pass
+        else:
+            rets_true.append(expand_text(has, e))
+
+    for st in has.node.body:
+        if isinstance(st, ast.Expr) and isinstance(st.value, ast.Constant):
+            continue
+        if isinstance(st, ast.Assign) and len(st.targets) == 1 and isinstance(st.targets[0], ast.Name):
+            continue  # a hoisted sub-expression; expand_text substitutes it
+        if isinstance(st, ast.If) and not st.orelse and len(st.body) == 1 and isinstance(st.body[0], ast.Return) and isinstance(st.body[0].value, ast.Constant) and st.body[0].value.value is True:
+            disj(st.test)
+        elif isinstance(st, ast.Return) and st.value is not None:
+            disj(st.value)
+        else:
+            shape_ok = False
+    if not shape_ok:
+        rets_true.append("<statement that is neither `if T: return True` nor `return <tests>`>")
     param = has.params[1]
     good = {"self.code_tags == ['all']", "%s in self.code_tags" % param}
     if set(rets_true) == good:
